@@ -14,6 +14,7 @@ import (
 	"fmt"
 	"go/ast"
 	"go/parser"
+	"go/printer"
 	"go/token"
 	"io/ioutil"
 	"os"
@@ -153,6 +154,142 @@ func alertOrder() string {
 	return "unknown"
 }
 
+// ---- round 8b: tiny statement translators (go/ast -> token lists the Lean model INTERPRETS) ----
+//
+// Every statement of the function body is printed (go/printer), white space removed, and matched against the
+// few shapes the interpreter of Model/C09Glue.lean knows; locking, tracing and declarations are skipped; any
+// other statement becomes the token "?" which the interpreter refuses (fail closed).
+
+func stmtText(fset *token.FileSet, st ast.Stmt) string {
+	var b strings.Builder
+	printer.Fprint(&b, fset, st)
+	return strings.Join(strings.Fields(b.String()), "")
+}
+
+type rule struct {
+	re  *regexp.Regexp
+	tok string // "" = skip
+}
+
+func translate(file, recv, name string, rules []rule) []string {
+	fset := token.NewFileSet()
+	f, err := parser.ParseFile(fset, filepath.Join(repo(), file), nil, 0)
+	if err != nil {
+		return []string{"?"}
+	}
+	for _, d := range f.Decls {
+		fd, ok := d.(*ast.FuncDecl)
+		if !ok || fd.Name.Name != name || fd.Recv == nil || fd.Body == nil || len(fd.Recv.List) != 1 {
+			continue
+		}
+		var rb strings.Builder
+		printer.Fprint(&rb, fset, fd.Recv.List[0].Type)
+		if rb.String() != recv {
+			continue
+		}
+		var out []string
+	stmts:
+		for _, st := range fd.Body.List {
+			t := stmtText(fset, st)
+			for _, r := range rules {
+				if r.re.MatchString(t) {
+					if r.tok != "" {
+						out = append(out, r.tok)
+					}
+					continue stmts
+				}
+			}
+			out = append(out, "?")
+		}
+		return out
+	}
+	return []string{"?"}
+}
+
+func rx(s string) *regexp.Regexp { return regexp.MustCompile("^(?:" + s + ")$") }
+
+var skipRules = []rule{
+	{rx(`\w+\.\w+\.R?(Lock|Unlock)\(\)`), ""},
+	{rx(`defer\w+\.\w+\.R?Unlock\(\)`), ""},
+	{rx(`(ctx|_),span:=trace\.StartSpan\(.*\)`), ""},
+	{rx(`deferspan\.End\(\)`), ""},
+	{rx(`var\w+\*?[\w.]+`), ""},
+}
+
+func windowAdd() []string {
+	return translate("monitor/metrics/window.go", "*Window", "Add", append([]rule{
+		{rx(`m\.ReceivedAt=time\.Now\(\)\.UnixNano\(\)`), "stamp"},
+		{rx(`mw\.window\.Value=m`), "set"},
+		{rx(`mw\.window=mw\.window\.Next\(\)`), "next"},
+		{rx(`mw\.window=mw\.window\.Prev\(\)`), "prev"},
+	}, skipRules...))
+}
+
+func windowLatest() []string {
+	return translate("monitor/metrics/window.go", "*Window", "Latest", append([]rule{
+		{rx(`prevRing:=mw\.window\.Prev\(\)`), "r=prev"},
+		{rx(`prevRing:=mw\.window\.Next\(\)`), "r=next"},
+		{rx(`prevRing:=mw\.window`), "r=cur"},
+		{rx(`last,ok=prevRing\.Value\.\(\*api\.Metric\)`), "read-r"},
+		{rx(`last,ok=mw\.window\.Value\.\(\*api\.Metric\)`), "read-cur"},
+		{rx(`if!ok\|\|last==nil\{returnnil,ErrNoMetrics\}`), "nil?err"},
+		{rx(`returnlast,nil`), "ret"},
+	}, skipRules...))
+}
+
+// windowAllOrder: how `All` puts each value the forward walk `Do` meets into the result.
+func windowAllOrder() string {
+	src := funcBody(read("monitor/metrics/window.go"), "func (mw *Window) All(")
+	t := strings.Join(strings.Fields(src), "")
+	pre := strings.Count(t, "values=append([]*api.Metric{i},values...)")
+	app := strings.Count(t, "values=append(values,i)")
+	do := strings.Count(t, "mw.window.Do(func(vinterface{}){")
+	switch {
+	case do == 1 && pre == 1 && app == 0 && strings.Count(t, "append(") == 1:
+		return "prepend"
+	case do == 1 && pre == 0 && app == 1 && strings.Count(t, "append(") == 1:
+		return "append"
+	}
+	return "?"
+}
+
+func latestMetricsProg() []string {
+	return translate("monitor/pubsubmon/pubsubmon.go", "*Monitor", "LatestMetrics", append([]rule{
+		{rx(`latest:=mon\.metrics\.LatestValid\(name\)`), "latest=valid"},
+		{rx(`ifmon\.peers==nil\{returnlatest\}`), "nil?latest"},
+		{rx(`peers,err:=mon\.peers\(ctx\)`), "peers=call"},
+		{rx(`peers,err:=mon\.\w+,error\(nil\)`), "peers=field"},
+		{rx(`peers:=mon\.\w+`), "peers=field"},
+		{rx(`iferr!=nil\{return\[\]\*api\.Metric\{\}\}`), "err?empty"},
+		{rx(`iferr!=nil\{returnlatest\}`), "err?latest"},
+		{rx(`returnmetrics\.PeersetFilter\(latest,peers\)`), "ret=filter"},
+		{rx(`returnlatest`), "ret=latest"},
+	}, skipRules...))
+}
+
+// publishProg: the guard of PublishMetric before anything is encoded or sent.
+func publishProg() []string {
+	return translate("monitor/pubsubmon/pubsubmon.go", "*Monitor", "PublishMetric", append([]rule{
+		{rx(`ifm\.Discard\(\)\{(logger\.\w+\(.*\))?returnnil\}`), "discard?nil"},
+		{rx(`ifm\.Discard\(\)\{(logger\.\w+\(.*\))?return\w+\}`), "discard?err"},
+		{rx(`varbbytes\.Buffer`), ""},
+		{rx(`enc:=gocodec\.NewEncoder\(&b,msgpackHandle\)`), ""},
+		{rx(`err:=enc\.Encode\(m\)`), "encode"},
+		{rx(`err=mon\.topic\.Publish\(ctx,b\.Bytes\(\)\)`), "publish"},
+		{rx(`iferr!=nil\{logger\.Error\(err\)returnerr\}`), "err?ret"},
+		{rx(`logger\.Debugf\(.*\)`), ""},
+		{rx(`returnnil`), "ret"},
+	}, skipRules...))
+}
+
+func leanStrs(name, doc string, l []string) string {
+	q := make([]string, len(l))
+	for i, s := range l {
+		q[i] = strconv.Quote(s)
+	}
+	return fmt.Sprintf("/-- %s -/\ndef %s : List String := [%s]\n", doc, name, strings.Join(q, ", "))
+}
+
 func main() {
 	accrual := 0
 	if m := regexp.MustCompile(`(?m)^var accrualMetricsNum = (\d+)\s*$`).FindStringSubmatch(read("monitor/metrics/checker.go")); m != nil {
@@ -180,6 +317,13 @@ func main() {
 	fmt.Printf("def alertOrderKnown : Bool := %v\n", order != "unknown")
 	fmt.Println("/-- `Checker.alert`: `failedMetrics[name]++` precedes the non-blocking send into `alertCh` (a refused alert is counted) -/")
 	fmt.Printf("def alertCountsBeforeSend : Bool := %v\n", order != "after")
+	fmt.Println()
+	fmt.Println("/-! round 8b: statement programs the model interprets (Model/C09Glue.lean); \"?\" = unrecognised statement -/")
+	fmt.Print(leanStrs("windowAddProg", "`Window.Add` (monitor/metrics/window.go): ring statements in program order", windowAdd()))
+	fmt.Print(leanStrs("windowLatestProg", "`Window.Latest`", windowLatest()))
+	fmt.Printf("/-- `Window.All`: how a value met by the forward walk `Do` is added to the result -/\ndef windowAllOrder : String := %q\n", windowAllOrder())
+	fmt.Print(leanStrs("latestMetricsProg", "`Monitor.LatestMetrics` (monitor/pubsubmon/pubsubmon.go): where the peerset comes from and what is returned", latestMetricsProg()))
+	fmt.Print(leanStrs("publishProg", "`Monitor.PublishMetric`: guard, encode, publish", publishProg()))
 	fmt.Println()
 	// Source text of three small functions whose exact shape no timed run can observe (the
 	// strictness of the expiry comparison) or that the model transcribes line by line
